@@ -28,7 +28,7 @@ DOCUMENTED = ("MemoryLocationNotWriteable", "MemoryWriteFailure", "ResponseError
 
 
 def plan(tier, seed):
-    reps = 1 if tier == "quick" else 8
+    reps = 1 if tier == "quick" else 24
     return [{"bank": b, "rep": rep, "datas": 5 if tier == "quick" else 8} for b in BANKS for rep in range(reps)] + \
         [{"bank": "synthetic"}] + \
         [{"bank": "first-use", "first": f} for f in ({"force_unlock": True}, {"allow_short_write": True},
